@@ -332,6 +332,84 @@ func authWitnesses() []asWitness {
 			return g.Mk(spec.MRoomMember, "@a:hs2", sp("@a:hs2"), map[string]interface{}{"membership": "join",
 				"mxid_mapping": map[string]interface{}{"user_room_key": "k", "user_id": "@a:hs1"}}, prev, nil, nil), []*Ev{c, jr}
 		}},
+		// --- round 4: the inputs of the defects A1-A4 (audit), each a concrete violation before its repair
+		// A1: version 12, the creator (not listed in `users`: privileged) changes a NOTIFICATION level
+		{"A1", "12", false, func(g *RoomGen) (*Ev, []*Ev) {
+			c := mkCreate(g, map[string]interface{}{"room_version": "12"})
+			users := map[string]interface{}{"@a:hs1": 50}
+			old := g.Mk(spec.MRoomPowerLevels, cr, sp(""), map[string]interface{}{"users": users}, nil, nil, nil)
+			return g.Mk(spec.MRoomPowerLevels, cr, sp(""), map[string]interface{}{"users": users, "notifications": map[string]interface{}{"room": 60}}, prev, nil, nil),
+				[]*Ev{c, memberEv(g, cr, "join"), old}
+		}},
+		// A1 (additional creator, no power-levels event at all)
+		{"A1b", "12", false, func(g *RoomGen) (*Ev, []*Ev) {
+			c := mkCreate(g, map[string]interface{}{"room_version": "12", "additional_creators": []string{"@b:hs1"}})
+			return g.Mk(spec.MRoomPowerLevels, "@b:hs1", sp(""), map[string]interface{}{"notifications": map[string]interface{}{"room": 100}}, prev, nil, nil),
+				[]*Ev{c, memberEv(g, "@b:hs1", "join")}
+		}},
+		// A2: version 10 and later: `null` where an integer level / an object of integer levels is required
+		{"A2a", "10", false, func(g *RoomGen) (*Ev, []*Ev) {
+			c := mkCreate(g, nil)
+			return g.Mk(spec.MRoomPowerLevels, cr, sp(""), map[string]interface{}{"ban": nil}, prev, nil, nil), []*Ev{c, memberEv(g, cr, "join")}
+		}},
+		{"A2b", "11", false, func(g *RoomGen) (*Ev, []*Ev) {
+			c := mkCreate(g, nil)
+			return g.Mk(spec.MRoomPowerLevels, cr, sp(""), map[string]interface{}{"users": map[string]interface{}{"@a:hs1": nil}}, prev, nil, nil), []*Ev{c, memberEv(g, cr, "join")}
+		}},
+		{"A2c", "10", false, func(g *RoomGen) (*Ev, []*Ev) {
+			c := mkCreate(g, nil)
+			return g.Mk(spec.MRoomPowerLevels, cr, sp(""), map[string]interface{}{"events": nil}, prev, nil, nil), []*Ev{c, memberEv(g, cr, "join")}
+		}},
+		{"A2d", "org.matrix.msc3667", false, func(g *RoomGen) (*Ev, []*Ev) {
+			c := mkCreate(g, nil)
+			return g.Mk(spec.MRoomPowerLevels, cr, sp(""), map[string]interface{}{"events": map[string]interface{}{"m.room.name": nil}}, prev, nil, nil), []*Ev{c, memberEv(g, cr, "join")}
+		}},
+		{"A2e", "10", false, func(g *RoomGen) (*Ev, []*Ev) {
+			c := mkCreate(g, nil)
+			return g.Mk(spec.MRoomPowerLevels, cr, sp(""), map[string]interface{}{"notifications": map[string]interface{}{"room": nil}}, prev, nil, nil), []*Ev{c, memberEv(g, cr, "join")}
+		}},
+		{"A2f", "12", false, func(g *RoomGen) (*Ev, []*Ev) {
+			c := mkCreate(g, map[string]interface{}{"room_version": "12"})
+			return g.Mk(spec.MRoomPowerLevels, cr, sp(""), map[string]interface{}{"users": nil, "state_default": nil}, prev, nil, nil), []*Ev{c, memberEv(g, cr, "join")}
+		}},
+		// A3: a power-levels AUTH event that does not parse (`"ban":"x"`): a level-0 member changes the join rules
+		{"A3", "10", false, func(g *RoomGen) (*Ev, []*Ev) {
+			c := mkCreate(g, nil)
+			pl := g.Mk(spec.MRoomPowerLevels, cr, sp(""), map[string]interface{}{"users": map[string]interface{}{cr: 100}, "ban": "x"}, nil, nil, nil)
+			return g.Mk(spec.MRoomJoinRules, "@a:hs1", sp(""), map[string]interface{}{"join_rule": "public"}, prev, nil, nil),
+				[]*Ev{c, memberEv(g, "@a:hs1", "join"), pl}
+		}},
+		{"A3b", "6", false, func(g *RoomGen) (*Ev, []*Ev) {
+			c := mkCreate(g, nil)
+			pl := g.Mk(spec.MRoomPowerLevels, cr, sp(""), map[string]interface{}{"users": map[string]interface{}{cr: 100}, "ban": "x"}, nil, nil, nil)
+			return g.Mk("m.room.topic", "@a:hs1", sp(""), map[string]interface{}{"topic": "t"}, prev, nil, nil),
+				[]*Ev{c, memberEv(g, "@a:hs1", "join"), pl}
+		}},
+		// A3 (version 10: a float is not an integer there)
+		{"A3c", "10", false, func(g *RoomGen) (*Ev, []*Ev) {
+			c := mkCreate(g, nil)
+			pl := g.Mk(spec.MRoomPowerLevels, cr, sp(""), map[string]interface{}{"users": map[string]interface{}{cr: 100}, "state_default": num("50.5")}, nil, nil, nil)
+			return g.Mk("m.room.name", "@a:hs1", sp(""), map[string]interface{}{"name": "n"}, prev, nil, nil),
+				[]*Ev{c, memberEv(g, "@a:hs1", "join"), pl}
+		}},
+		// A7 (DECISION, no defect under the D3 / D4 reading): state_default 100, the sender at 50 may send power levels
+		// (events[m.room.power_levels] = 50) and ADDS events[m.room.join_rules] = 0 - the effective level of that type for a
+		// non-state event was events_default = 0, so "no change"; for the state event it was state_default = 100
+		{"A7", "10", false, func(g *RoomGen) (*Ev, []*Ev) {
+			c := mkCreate(g, nil)
+			users := map[string]interface{}{cr: 100, "@a:hs1": 50}
+			old := g.Mk(spec.MRoomPowerLevels, cr, sp(""), map[string]interface{}{"users": users, "state_default": 100,
+				"events": map[string]interface{}{"m.room.power_levels": 50}}, nil, nil, nil)
+			return g.Mk(spec.MRoomPowerLevels, "@a:hs1", sp(""), map[string]interface{}{"users": users, "state_default": 100,
+					"events": map[string]interface{}{"m.room.power_levels": 50, "m.room.join_rules": 0}}, prev, nil, nil),
+				[]*Ev{c, memberEv(g, "@a:hs1", "join"), old}
+		}},
+		// A4: a version without knocking: `knock` -> `leave` by the user themselves
+		{"A4", "5", false, func(g *RoomGen) (*Ev, []*Ev) {
+			c := mkCreate(g, nil)
+			return g.Mk(spec.MRoomMember, "@a:hs1", sp("@a:hs1"), map[string]interface{}{"membership": "leave"}, prev, nil, nil),
+				[]*Ev{c, memberEv(g, "@a:hs1", "knock")}
+		}},
 	}
 }
 
@@ -444,6 +522,9 @@ func genAuthSpace(o *Out, tier string, r *Rng) {
 		}
 		res := o.Do("allowed", args...)
 		o.Count("authspace.witness." + w.name + "." + res)
+	}
+	if tier == "witness" {
+		return
 	}
 	enumAuthSpace(func(s asScenario) {
 		if tier != "thorough" && r.Intn(100) >= 5 {
